@@ -2,7 +2,7 @@
   Model.Handle — handles (`BytesRefMut`/`BytesMut`/`RefMut`/`Owned`), arena reference counts and the
   session state driven by the line protocol: which handle releases what, when.
 -/
-import RarenaVerif.Model.Layout
+import RarenaVerif.Model.File
 
 namespace Rarena
 
@@ -45,6 +45,11 @@ structure Sess where
   arenas : List Nat
   refs : Nat
   dropCount : Nat
+  /-- the file of a file-backed case as of the last open / close (see `fileView`) -/
+  fs : FileSys := none
+  mapping : Mapping := .shared
+  closed : Bool := false
+  removeOnDrop : Bool := false
   deriving Inhabited
 
 def Sess.find (x : Sess) (h : Nat) : Option Handle := (x.handles.find? (·.1 == h)).map (·.2)
@@ -57,7 +62,11 @@ def Sess.fuel (x : Sess) : Nat := x.st.cap / 8 + 8
 
 def Sess.init (o : Opts) : Option Sess :=
   (o.init).map fun st =>
-    { opts := o, cfg := o.cfg, st := st, handles := [], arenas := [0], refs := 1, dropCount := 0 }
+    { opts := o, cfg := o.cfg, st := st, handles := [], arenas := [0], refs := 1, dropCount := 0,
+      fs := if o.file then some (st.image o.cfg) else none }
+
+/-- the file as the page cache holds it right now -/
+def Sess.file (x : Sess) : FileSys := if x.closed then x.fs else fileView x.cfg x.st x.mapping x.fs
 
 /-- register the handle produced by an allocation call -/
 def Sess.addHandle (x : Sess) (id : Nat) (m : Option Meta) (k : HKind) (owned : Bool) : Sess :=
